@@ -191,7 +191,7 @@ func cond(e ast.Expr) string {
 				}
 				if p, ok := purePath(x.X); ok {
 					if eq {
-						return "(.skIsNil " + q(p) + ")"
+						return "(.isNil " + q(p) + ")"
 					}
 					return "(.notNil " + q(p) + ")"
 				}
